@@ -24,6 +24,19 @@
 (* either call), and SGX verification reads the root of trust from a file  *)
 (* or fetches it from a URL (right PEM, another root, 404, garbage).       *)
 (*                                                                         *)
+(* HISTORIES: the tools are run more than once over the same files.  Env   *)
+(* may have the attestation gathered twice, the device's state (UD value,  *)
+(* best block, last signed tx, timestamp) changing in between and the one  *)
+(* alteration, if any, happening in the SECOND run:                        *)
+(*   reattest  the second run is given the OUTPUT of the first as its      *)
+(*             input certificate and writes a new file                     *)
+(*   inplace   the same, writing over its own input                        *)
+(*   sameout   both runs start from the onboarding certificate and write   *)
+(*             to the same path (SGX: two runs, one output path)           *)
+(*   reuse0 / two   both runs start afresh and write to different paths    *)
+(* What is verified at the end is the file of the second run; files of the *)
+(* first run that were not to be overwritten must stay as they were.       *)
+(*                                                                         *)
 (* The SHAPE of every signature a genuine device (or Intel) produces is an *)
 (* Env dimension as well: the byte lengths of r and s decide how a         *)
 (* signature is encoded (DER minimal integers on Ledger and in X.509,      *)
@@ -53,9 +66,10 @@ CONSTANTS Platforms,        \* subset of {"ledger", "sgx"}
 VARIABLES dev, cfg, alt,    \* Env: ground truth, shape of the answers, the one alteration
           net,              \* Env: [ud: "hex" | what the node does, at: which call, rootvia: "file" | "url"]
           shape,            \* Env: [site: which signature (or "all" / "none"), cls: "<r class>/<s class>"]
+          hist,             \* Env: "single" | "reattest" | "inplace" | "sameout" | "reuse0" | "two"
           pc, acc,          \* Sys: program counter, what was gathered so far
           obs               \* the observation (AttestFlowProps)
-vars == <<dev, cfg, alt, net, shape, pc, acc, obs>>
+vars == <<dev, cfg, alt, net, shape, hist, pc, acc, obs>>
 
 (***************************************************************************)
 (* Ground truth of a genuine device.                                       *)
@@ -126,7 +140,23 @@ SgxAlts(c) ==
     \cup AI("root", {1, 2, 3, 4, 5})           \* another self-signed root, TBS byte, signature byte;
                                                \* by URL only: 4 = HTTP 404, 5 = a body that is no PEM
 
-Is(site) == alt.site = site
+Multi == hist # "single"
+\* the one alteration happens in the run that produces the verified file
+Is(site) == alt.site = site /\ (~Multi \/ acc.round = 2)
+\* histories are explored on the plain shape, typed UD values, the root from a file, any alteration that
+\* can happen in an attestation run (the onboarding answers are not asked for again)
+OnboardSites == {"dc_hdr", "dc_key", "dc_sig", "en_key", "en_sig"}
+Hists(p, fr, c, a, nt, sh) ==
+    {"single"} \cup
+    (IF c = Cfg1(p, fr) /\ nt = Net("hex", 0, "file") /\ sh = [site |-> "none", cls |-> "any"]
+        /\ a.site \notin OnboardSites
+     THEN (IF p = "ledger" THEN {"reattest", "inplace", "sameout", "reuse0"} ELSE {"sameout", "two"})
+     ELSE {})
+\* the device's blockchain state in run r (it moves on between the runs), and the UD value it was handed
+StateOf(r) == IF Multi /\ r = 1 THEN [best |-> "bb1", ltx |-> "ltx1", ts |-> "ts1"]
+              ELSE [best |-> dev.best, ltx |-> dev.ltx, ts |-> dev.ts]
+UdHanded(r) == IF r = acc.round THEN acc.ud ELSE "ud1"
+DevPrev == [dev EXCEPT !.ud = "ud1", !.best = "bb1", !.ltx = "ltx1", !.ts = "ts1"]
 
 (***************************************************************************)
 (* Signature shapes.                                                       *)
@@ -168,7 +198,9 @@ DevMsg  == <<"02", "hdr", "k_dev">>
 EndoMsg == <<"ff", "k_att">>
 \* the device signs the UD value it is HANDED (acc.ud), which need not be the one intended (dev.ud)
 UiMsg   == <<"HSM:UI:", dev.ui_ver, acc.ud, dev.btc_c, dev.auth_hash, dev.iter>>
-PowMsg  == <<"POWHSM:", dev.s_ver, dev.platform, acc.ud, dev.pkhash, dev.best, dev.ltx, dev.ts>>
+PowMsgR(r) == <<"POWHSM:", dev.s_ver, dev.platform, UdHanded(r), dev.pkhash,
+                 StateOf(r).best, StateOf(r).ltx, StateOf(r).ts>>
+PowMsg  == PowMsgR(acc.round)
 SgMsg   == IF dev.framing = "legacy" THEN <<"HSM:SIGNER:", dev.s_ver, dev.pkhash>> ELSE PowMsg
 
 AnsDevKey == [hdr |-> IF Is("dc_hdr") THEN "X" ELSE "hdr",
@@ -194,9 +226,9 @@ AnsSgHash == IF Is("s_hash") THEN "X" ELSE dev.signer_hash
 (* Env: the SGX enclave's message and envelope (alteration applied).       *)
 (***************************************************************************)
 AuthTok == IF cfg.qeauth = 0 THEN "auth_empty" ELSE "auth"
-HashOf(x) == IF x = PowMsg THEN "H_cm"
+HashOf(x) == IF x = PowMsgR(1) THEN "H_cm1" ELSE IF x = PowMsgR(2) THEN "H_cm2"
              ELSE IF x = <<"k_att", AuthTok>> THEN "H_ak" ELSE "H_other"
-QuoteMsg == <<"qhdr", "qother", dev.mrenclave, dev.mrsigner, "H_cm">>
+QuoteMsg == <<"qhdr", "qother", dev.mrenclave, dev.mrsigner, IF acc.round = 1 THEN "H_cm1" ELSE "H_cm2">>
 QeBody   == <<"qeother", "H_ak">>
 Cert(subj, key, issuer) == [tbs |-> <<subj, key>>, sig |-> Sign(issuer, "none", <<subj, key>>)]
 AlterCert(c, tbs_site, sig_site) ==
@@ -255,7 +287,7 @@ NodeAns2(asked) ==
 El(n, by, tw, msg, sig, aux) == [name |-> n, by |-> by, tw |-> tw, msg |-> msg, sig |-> sig, aux |-> aux]
 ElOf(file, n) == LET I == {i \in 1..Len(file) : file[i].name = n} IN file[CHOOSE i \in I : TRUE]
 Has(file, n) == \E i \in 1..Len(file) : file[i].name = n
-Acc0 == [ud |-> "", n |-> "", dc |-> [hdr |-> "", key |-> "", sig |-> NoSig], en |-> [key |-> "", sig |-> NoSig],
+Acc0 == [round |-> 1, ud |-> "", n |-> "", dc |-> [hdr |-> "", key |-> "", sig |-> NoSig], en |-> [key |-> "", sig |-> NoSig],
          ui_hash |-> "", ui_msg |-> <<>>, ui_sig |-> NoSig, s_sig |-> NoSig, s_msg |-> <<>>,
          s_env |-> <<>>, s_hash |-> "", page |-> 1]
 Obs0(p, d, a, nt) ==
@@ -264,6 +296,9 @@ Obs0(p, d, a, nt) ==
                   http |-> <<>>, ud_sent |-> "", att_file |-> "no", contacted |-> "no",
                   g_err |-> "none", v_err |-> "none",
                   sigsite |-> "none", sigclass |-> "any",
+                  hist |-> "single", dev_prev |-> d, prev_ok |-> "na", prevfile |-> <<>>,
+                  earlier_before |-> <<>>, earlier_after |-> <<>>,
+                  verify_prev |-> "na", printed_prev |-> NoPrinted,
                   plat |-> p, framing |-> d.framing, alt |-> a.site, dev |-> d,
                   g_onboard |-> "na", g_attest |-> "na", gather |-> "fail",
                   file0 |-> <<>>, reload0 |-> <<>>, file |-> <<>>, reload |-> <<>>, reload_ok |-> "na",
@@ -274,15 +309,19 @@ Init == /\ acc = Acc0
              IF p = "ledger"
              THEN \E fr \in Framings : \E c \in LedgerCfgs(fr) : \E a \in LedgerAlts(fr, c) :
                   \E nt \in Nets(p, fr, c, a) : \E sh \in ShapeChoices(p, fr, c, a, nt) :
+                  \E h \in Hists(p, fr, c, a, nt, sh) :
                     /\ dev = LedgerDev(fr, nt) /\ cfg = c /\ alt = a /\ net = nt /\ shape = sh /\ pc = "onboard"
-                    /\ obs = [Obs0(p, LedgerDev(fr, nt), a, nt) EXCEPT !.sigsite = sh.site, !.sigclass = sh.cls]
+                    /\ hist = h
+                    /\ obs = [Obs0(p, LedgerDev(fr, nt), a, nt) EXCEPT !.sigsite = sh.site, !.sigclass = sh.cls,
+                                                                       !.hist = h]
              ELSE \E c \in SgxCfgs : \E a \in SgxAlts(c) : \E nt \in Nets(p, "current", c, a) :
-                  \E sh \in ShapeChoices(p, "current", c, a, nt) :
-                    /\ dev = SgxDev(nt) /\ cfg = c /\ alt = a /\ net = nt /\ shape = sh /\ pc = "ud"
-                    /\ obs = [Obs0(p, SgxDev(nt), a, nt) EXCEPT !.sigsite = sh.site, !.sigclass = sh.cls]
+                  \E sh \in ShapeChoices(p, "current", c, a, nt) : \E h \in Hists(p, "current", c, a, nt, sh) :
+                    /\ dev = SgxDev(nt) /\ cfg = c /\ alt = a /\ net = nt /\ shape = sh /\ pc = "ud" /\ hist = h
+                    /\ obs = [Obs0(p, SgxDev(nt), a, nt) EXCEPT !.sigsite = sh.site, !.sigclass = sh.cls,
+                                                                !.hist = h]
 
 Go(p) == pc' = p
-Keep == UNCHANGED <<dev, cfg, alt, net, shape>>
+Keep == UNCHANGED <<dev, cfg, alt, net, shape, hist>>
 FailOnboard == /\ obs' = [obs EXCEPT !.g_onboard = "fail"] /\ Go("done")
 FailAttest  == /\ obs' = [obs EXCEPT !.g_attest = "fail", !.g_err = "AdminError"] /\ Go("done")
 
@@ -297,7 +336,8 @@ UdFails(kind) == /\ obs' = [obs EXCEPT !.g_attest = "fail", !.g_err = kind,
                                         !.http = Append(@, IF pc = "ud" THEN Rpc("eth_blockNumber", <<>>)
                                                            ELSE Rpc("eth_getBlockByNumber", <<acc.n, "false">>))]
                  /\ Go("done") /\ UNCHANGED acc
-GetUdTyped == /\ pc = "ud" /\ net.ud = "hex" /\ acc' = [acc EXCEPT !.ud = "ud"]
+GetUdTyped == /\ pc = "ud" /\ net.ud = "hex"
+              /\ acc' = [acc EXCEPT !.ud = IF Multi /\ acc.round = 1 THEN "ud1" ELSE "ud"]
               /\ Go(AfterUd) /\ Keep /\ UNCHANGED obs
 NodeCall1 == /\ pc = "ud" /\ net.ud # "hex" /\ Keep
              /\ LET r == NodeAns1 IN
@@ -380,14 +420,32 @@ SgAppHash == /\ pc = "sg_hash" /\ acc' = [acc EXCEPT !.s_hash = AnsSgHash]
 HealthCheck == /\ pc = "health" /\ Keep /\ UNCHANGED acc
                /\ IF acc.s_msg # acc.s_env /\ Bug # "nohealth" THEN FailAttest
                   ELSE Go("save1") /\ UNCHANGED obs
-File1 == obs.file0 \o
+\* the certificate the run starts from: the onboarding certificate, or the output of the first run
+InCert == IF acc.round = 2 /\ hist \in {"reattest", "inplace"} THEN obs.prevfile ELSE obs.file0
+ElNames(els) == {els[i].name : i \in 1..Len(els)}
+\* HSMCertificate.add_element: an element REPLACES the one of the same name
+AddElements(base, new) ==
+    IF Bug = "setdefault" THEN base \o SelectSeq(new, LAMBDA e : e.name \notin ElNames(base))
+    ELSE SelectSeq(base, LAMBDA e : e.name \notin ElNames(new)) \o new
+File1 == AddElements(InCert,
          << El("ui", "attestation", acc.ui_hash, acc.ui_msg, acc.ui_sig, <<>>),
             El("signer", "attestation", IF Bug = "wrongtweak" THEN acc.ui_hash ELSE acc.s_hash,
-               IF Bug = "swapmsg" THEN acc.ui_msg ELSE acc.s_msg, acc.s_sig, <<>>) >>
-SaveCert  == /\ pc = "save1"
-             /\ obs' = [obs EXCEPT !.g_attest = "ok", !.gather = "ok", !.file = File1, !.att_file = "yes",
-                                   !.reload = Reloaded(File1), !.reload_ok = "ok"]
-             /\ Go("verify") /\ Keep /\ UNCHANGED acc
+               IF Bug = "swapmsg" THEN acc.ui_msg ELSE acc.s_msg, acc.s_sig, <<>>) >>)
+\* files of the first run that the second run is not to write to
+KeepsPrev == hist \in {"reattest", "reuse0", "two"}
+Earlier(f) == (IF obs.plat = "ledger" THEN <<obs.file0>> ELSE <<>>) \o (IF KeepsPrev THEN <<f>> ELSE <<>>)
+\* end of the first run of a history: remember its file, let the device move on, start the second run
+NextRun(f, restart) ==
+    /\ obs' = [obs EXCEPT !.prev_ok = "ok", !.prevfile = f, !.dev_prev = DevPrev,
+                          !.earlier_before = Earlier(f), !.earlier_after = Earlier(f),
+                          !.contacted = "no", !.att_file = "no", !.ud_sent = "", !.http = <<>>]
+    /\ acc' = [acc EXCEPT !.round = 2, !.ud = ""]
+    /\ Go(restart)
+SaveCert  == /\ pc = "save1" /\ Keep
+             /\ IF Multi /\ acc.round = 1 THEN NextRun(File1, "load0")
+                ELSE /\ obs' = [obs EXCEPT !.g_attest = "ok", !.gather = "ok", !.file = File1, !.att_file = "yes",
+                                           !.reload = Reloaded(File1), !.reload_ok = "ok"]
+                     /\ Go("verify") /\ UNCHANGED acc
 
 \* ---- Ledger: do_verify_attestation ----------------------------------------
 \* validate_and_get_values for one target: device under the root, attestation under the device key
@@ -451,10 +509,11 @@ FileX == LET p == EnvParts IN
             El("quoting_enclave", "platform_ca", "none", p.pck.tbs, p.pck.sig, <<>>),
             El("platform_ca", "sgx_root", "none",
                IF Bug = "swapmsg" THEN p.pck.tbs ELSE p.pca.tbs, p.pca.sig, <<>>) >>
-SxSave    == /\ pc = "sx_save"
-             /\ obs' = [obs EXCEPT !.g_attest = "ok", !.gather = "ok", !.file = FileX, !.att_file = "yes",
-                                   !.reload = Reloaded(FileX), !.reload_ok = "ok"]
-             /\ Go("verify") /\ Keep /\ UNCHANGED acc
+SxSave    == /\ pc = "sx_save" /\ Keep
+             /\ IF Multi /\ acc.round = 1 THEN NextRun(FileX, "ud")
+                ELSE /\ obs' = [obs EXCEPT !.g_attest = "ok", !.gather = "ok", !.file = FileX, !.att_file = "yes",
+                                           !.reload = Reloaded(FileX), !.reload_ok = "ok"]
+                     /\ Go("verify") /\ UNCHANGED acc
 
 \* ---- SGX: do_verify_attestation ----------------------------------------
 \* get_root_of_trust: from the file, or GET the URL (status must be 200, the body must be a PEM
@@ -494,14 +553,19 @@ Verify   == /\ pc = "verify" /\ Keep /\ UNCHANGED acc
 Reverify == /\ pc = "reverify" /\ Keep /\ UNCHANGED acc
             /\ LET r == VerifyOf(obs.reload) IN
                obs' = [obs EXCEPT !.verify2 = r.ok, !.printed2 = r.printed, !.http = Fetched(@)]
-            /\ Go("done")
+            /\ Go(IF Multi /\ KeepsPrev THEN "verify_prev" ELSE "done")
+\* the file the first run left behind is verified once more, after the second run
+VerifyPrev == /\ pc = "verify_prev" /\ Keep /\ UNCHANGED acc
+              /\ LET r == VerifyOf(obs.prevfile) IN
+                 obs' = [obs EXCEPT !.verify_prev = r.ok, !.printed_prev = r.printed, !.http = Fetched(@)]
+              /\ Go("done")
 
 Next == \/ Onboard \/ Handshake \/ GetDeviceKey \/ SetupEndo \/ EndoAck \/ SaveAttCert
         \/ LoadAttCert \/ Unlock \/ UiAppHash \/ UiUd \/ UiPage \/ UiSig \/ ExitUi
         \/ SgGet \/ SgMsgPage \/ SgEnvPage \/ SgAppHash \/ HealthCheck \/ SaveCert
         \/ SxUnlock \/ SxGet \/ SxMsgPage \/ SxEnvPage \/ SxAppHash \/ SxParse \/ SxConvert \/ SxSave
         \/ GetUdTyped \/ NodeCall1 \/ NodeCall2
-        \/ Verify \/ Reverify
+        \/ Verify \/ Reverify \/ VerifyPrev
 Spec == Init /\ [][Next]_vars
 
 Terminal == pc = "done"
@@ -520,6 +584,9 @@ NodeBad             == Terminal => NodeBadP(obs)
 NodeBadStrict       == Terminal => NodeBadStrictP(obs)      \* violated, as the code is (Known2)
 UdDelivered         == Terminal => UdDeliveredP(obs)
 RootFetch           == Terminal => RootFetchP(obs)
+FirstRunGathers     == Terminal => FirstRunGathersP(obs)
+EarlierKept         == Terminal => EarlierKeptP(obs)
+PrevKept            == Terminal => PrevKeptP(obs)
 \* the run always ends (no step is ever stuck before "done")
 Progress == (pc # "done") => ENABLED Next
 
@@ -529,6 +596,9 @@ NeverGatherFails == ~(Terminal /\ obs.gather = "fail")
 NeverVerifyFails == ~(Terminal /\ obs.verify = "fail")
 NeverLegacy      == ~(Terminal /\ obs.framing = "legacy" /\ obs.verify = "ok")
 NeverFourPages   == ~(Terminal /\ cfg.uip = 4 /\ obs.verify = "ok")
+NeverSecondRunOk == ~(Terminal /\ obs.hist # "single" /\ obs.verify = "ok")
+NeverInplaceOk   == ~(Terminal /\ obs.hist = "inplace" /\ obs.verify = "ok")
+NeverSecondRunAlteredFails == ~(Terminal /\ obs.hist # "single" /\ obs.alt # "none" /\ obs.verify = "fail")
 NeverShapedOk    == ~(Terminal /\ obs.sigclass # "any" /\ obs.verify = "ok")
 NeverNodeOk      == ~(Terminal /\ obs.udsrc = "node" /\ obs.verify = "ok")
 NeverReorgOk     == ~(Terminal /\ obs.node = "reorg" /\ obs.verify = "ok")
